@@ -80,6 +80,34 @@ def gen_lines(rng, n=None, area_names=True):
     return lines
 
 
+def gen_named_span_case(rng):
+    """A (start, end, lines) triple of the named-span family: a span counted in lines of a given name towards /
+    from a definite line, where the definite line itself (and often its neighbours) carries that name too
+    (`repeat(4, [col] 50px) [col last]` + `grid-column: span col / last`)."""
+    n = rng.choice([2, 3, 4, 5, 6])
+    name = rng.choice(NAMES)
+    other = rng.choice([x for x in NAMES if x != name])
+    lines = [[name] if rng.random() < 0.6 else [] for _ in range(n)]
+    for line in lines:
+        if rng.random() < 0.2:
+            line.append(rng.choice(NAMES))
+    e = rng.randrange(1, n)
+    if rng.random() < 0.7 and name not in lines[e]:
+        lines[e].append(name)
+    count = rng.choice([None, 1, 1, 2, 3])
+    if rng.random() < 0.5:
+        # backwards: `span <count> name / <line e>`; the end line is given by a name that only it carries, or a number
+        for line in lines:
+            while other in line:
+                line.remove(other)
+        lines[e].append(other)
+        end = (None, None, other) if rng.random() < 0.7 else (None, e + 1, None)
+        return ('span', count, name), end, lines
+    # forwards: `<line s> / span <count> name`
+    s = rng.randrange(0, n)
+    return (None, s + 1, None), ('span', count, name), lines
+
+
 def wire_place(p):
     if p == 'auto':
         return 'auto'
